@@ -394,25 +394,13 @@ func runC06(c *engine.Ctx) {
 	if h != nil && getListener != nil {
 		acceptF := field(c, "pkg/util/vhost", "Listener", "accept")
 		failF := field(c, "pkg/util/vhost", "Muxer", "failHook")
-		var site ssa.Instruction
-		engine.ForEachInstr(h, func(in ssa.Instruction) {
-			call, ok := in.(ssa.CallInstruction)
-			if !ok {
-				return
-			}
-			for _, a := range call.Common().Args {
-				if mc, ok := a.(*ssa.MakeClosure); ok {
-					if cf, ok := mc.Fn.(*ssa.Function); ok {
-						engine.ForEachInstr(cf, func(x ssa.Instruction) {
-							if s, ok := x.(*ssa.Send); ok {
-								if lf, _ := engine.LoadedField(s.Chan); lf == acceptF {
-									site = in
-								}
-							}
-						})
-					}
+		site := stepThatDoes(h, func(x ssa.Instruction) bool {
+			if s, ok := x.(*ssa.Send); ok {
+				if lf, _ := engine.LoadedField(s.Chan); lf == acceptF {
+					return true
 				}
 			}
+			return false
 		})
 		if site != nil {
 			n++
